@@ -21,7 +21,7 @@ ASSUMPTIONS = ["full-column-rank diffusion (state size >= noise size) in the exa
                "state trajectory must be torch.equal to the run without logqp (same Brownian values; for diagonal noise "
                "through a column-slicing proxy)"]
 REQUIRED_COUNTERS = ["exact_runs", "generic_runs", "state_equal_checks", "additivity_checks", "diagonal_runs",
-                     "general_runs"]
+                     "general_runs", "offgrid_output_runs", "two_output_time_runs", "renamed_prior_drift_runs"]
 THRESHOLDS = {"exact_rel": 1e-11, "generic_rel": 1e-9, "additive_rel": 1e-11}
 
 
@@ -105,11 +105,18 @@ def run_case(case):
         sde = base
     t0 = rng.choice([0.0, 0.4])
     dt = rng.choice([0.1, 0.05])
-    k = rng.choice([2, 3, 5])
-    # output times on the step grid (needed for additivity under refinement)
+    k = rng.choice([1, 2, 3, 5])  # k = 1: exactly two output times
+    # output times on the step grid (needed for additivity under refinement) ...
     n = 10
     idx = sorted(rng.sample(range(1, n), k - 1))
     tsl = [t0] + [t0 + i * dt for i in idx] + [t0 + n * dt]
+    # ... or, in the exact family (whose running integral is linear in t, so linear interpolation of the log-ratio channel
+    # is exact), also strictly inside steps
+    offgrid = case["family"] == "exact" and k >= 2 and rng.random() < 0.4
+    if offgrid:
+        tsl = [t0] + sorted(t0 + (i + rng.choice([0.3, 0.5, 0.85])) * dt for i in idx) + [t0 + n * dt]
+    cnt["offgrid_output_runs"] = int(offgrid)
+    cnt["two_output_time_runs"] = int(k == 1)
     ts = torch.tensor(tsl)
     y0 = torch.randn(B, d, generator=gen)
     entropy = rng.randrange(1, 10 ** 9)
@@ -123,6 +130,16 @@ def run_case(case):
     ctx = f"cell={zoo.cell_name(cell)} family={case['family']} B={B} d={d} m={base.m} ts={tsl} dt={dt}"
     ys, lq = zoo.solve(cell, sde, y0, ts, dt, bm=bm_full(), logqp=True)
     nsteps = n
+    # the prior drift handed over under another name (names={'prior_drift': ...}) while the object ALSO has a method
+    # called h (a different function): the named one is the prior drift
+    if rng.random() < 0.35:
+        ren = zoo.Plain(sde.f, sde.g, sde.noise_type, sde.sde_type, h=lambda t, y: sde.h(t, y) + 1.0)
+        ren.prior = sde.h
+        ys_r, lq_r = zoo.solve(cell, ren, y0, ts, dt, bm=bm_full(), logqp=True, names={"prior_drift": "prior"})
+        cnt["renamed_prior_drift_runs"] = 1
+        if not (torch.equal(ys_r, ys) and torch.equal(lq_r, lq)):
+            viol.append({"mechanism": "renamed_prior_drift_not_used",
+                         "detail": f"max logqp diff {float((lq_r - lq).abs().max()):.3e} {ctx}"})
     if tuple(lq.shape) != (len(tsl) - 1, B) or tuple(ys.shape) != (len(tsl), B, d) or lq.dtype != y0.dtype:
         viol.append({"mechanism": "logqp_shape", "detail": f"{tuple(lq.shape)} {tuple(ys.shape)} {ctx}"})
         return {"violations": viol}
@@ -165,5 +182,5 @@ def run_case(case):
     cnt["diagonal_runs"] = int(nt == "diagonal")
     cnt["general_runs"] = int(nt == "general")
     return {"violations": viol, "counters": cnt, "max": mx,
-            "nontrivial": len(tsl) >= 3 and nsteps >= 3 and float(lq.max()) > 0,
+            "nontrivial": nsteps >= 3 and float(lq.max()) > 0,
             "sample": {"cell": zoo.cell_name(cell), "family": case["family"], "ts": tsl, "logqp00": float(lq[0, 0]), **mx}}
